@@ -109,6 +109,7 @@ func C05() int {
 		}
 	})
 	reportBatchAnomalies(c)
+	raceVerdict(s, c)
 	c.Set("leaves_by_class_and_slot_family", cells)
 	c.Set("flag_sets", flagNames(fsets))
 	thin := 0
